@@ -94,30 +94,21 @@ typedef struct hp_urec hp_rec_t;
 #endif
 
 /*
- * Exact-size pointer buffer of `slots` pointers.  The size is case-split into constants: CBMC's encoding of a
- * symbolic-size array of pointers (array theory over byte_extract) needs > 16 GB even for 3 elements, a
- * constant-size array is flattened (measured: 6.7 M vs 0.2 M variables).
- */
-static void **
-hp_alloc_slots(size_t slots)
-{
-#define HP_AS_(k) if ((k) <= HP_MAXALLOC / sizeof(void *) && slots == (k)) return (malloc((k) * sizeof(void *)))
-	HP_AS_(0); HP_AS_(1); HP_AS_(2); HP_AS_(3); HP_AS_(4); HP_AS_(5); HP_AS_(6); HP_AS_(7); HP_AS_(8);
-	HP_AS_(9); HP_AS_(10); HP_AS_(11); HP_AS_(12); HP_AS_(13); HP_AS_(14); HP_AS_(15); HP_AS_(16);
-#undef HP_AS_
-	__CPROVER_assume(0);
-	return (NULL);
-}
-
-/*
- * HP_MK_LIST(L, n, use_rc): a well-formed pointer list of n <= HP_MAXN elements in an exact-size allocation of
- * n .. HP_MAXN+1 slots.  Slot k holds record object R[k] (distinct heap objects with arbitrary contents); when
- * use_rc is set the record in slot k carries position k (handle invariant).
+ * HP_MK_LIST(L, n, use_rc): a well-formed pointer list of n <= HP_MAXN elements whose allocation is
+ * alloc = slots * 8 bytes, n <= slots <= HP_MAXN + 1.  The buffer is a heap object of constant capacity
+ * HP_CAPSLOTS >= slots pointers (see models/heap_realloc.c for why); its logical size `alloc` is recorded in the
+ * ghost pair of the realloc model, and every access is checked against size/alloc by the ghost assertions of
+ * contracts/c13_elasticarray_bounds.spec.
+ * Slot k holds record object R[k] (distinct heap objects with arbitrary contents); when use_rc is set the
+ * record in slot k carries position k (handle invariant).
  * Layout: "slot k -> R[k]" is without loss of generality for heaps of distinct elements (the records are
  * interchangeable fresh objects, the code never compares or orders element pointers).  An arbitrary
  * slot -> record map (duplicate pointers included) costs > 600 s at 7 elements; it is covered at a smaller
  * size by the groups built with -DHP_ANYLAYOUT.
  */
+extern void * g_heap_ra_buf;
+extern size_t g_heap_ra_size;
+#define HP_CAPSLOTS (2 * (HP_MAXN + 1))
 #ifdef HP_ANYLAYOUT
 #define HP_SEL_(k) ({ size_t sel_; __CPROVER_assume(sel_ < HP_MAXN); sel_; })
 #else
@@ -129,10 +120,11 @@ hp_alloc_slots(size_t slots)
 	size_t L##_alloc = L##_slots * sizeof(void *); \
 	struct elasticarray * L##_ea = malloc(sizeof(struct elasticarray)); \
 	__CPROVER_assume(L##_ea != NULL); \
-	void ** L##_buf = hp_alloc_slots(L##_slots); \
+	void ** L##_buf = malloc(HP_CAPSLOTS * sizeof(void *)); \
 	__CPROVER_assume(L##_buf != NULL); \
 	L##_ea->size = n * sizeof(void *); L##_ea->alloc = L##_alloc; \
 	if (L##_alloc == 0) { free(L##_buf); L##_ea->buf = NULL; } else L##_ea->buf = L##_buf; \
+	g_heap_ra_buf = L##_ea->buf; g_heap_ra_size = L##_alloc; \
 	hp_rec_t * R[HP_MAXN]; \
 	for (size_t k_ = 0; k_ < HP_MAXN; k_++) { \
 		R[k_] = malloc(sizeof(hp_rec_t)); \
